@@ -752,7 +752,86 @@ def job_accepts(job):
     return {"id": job["id"], "texts": out}
 
 
-JOBS = {"accepts": job_accepts, "analyze": job_analyze, "linrec": job_linrec, "explattice": job_explattice, "simulate": job_simulate}
+def _install_name_recorder(log):
+    import utils.identifiers as ident
+    import inputparser, program, recurrences, cli.common  # noqa: F401  (make sure importers are loaded)
+    orig = ident.get_unique_var
+
+    def wrapper(name="u"):
+        log.append(name)
+        return orig(name)
+    for mod in list(sys.modules.values()):
+        try:
+            if getattr(mod, "get_unique_var", None) is orig:
+                setattr(mod, "get_unique_var", wrapper)
+        except Exception:
+            pass
+    return orig
+
+
+def _analyze_simple(text, goals):
+    """parse + normalize + closed forms, the way GoalsAction does; returns a result description"""
+    from inputparser import Parser
+    from program import normalize_program
+    from recurrences import RecBuilder
+    from cli.common import get_moment
+    out = {}
+    try:
+        program = Parser().parse_string(text)
+        program = normalize_program(program)
+        out["typedefs"] = {str(v): sorted(frac_or_str(x) for x in t.values)
+                           for v, t in program.typedefs.items() if hasattr(t, "values")}
+        out["variables"] = sorted(str(v) for v in program.variables)
+        rb = RecBuilder(program)
+        solvers = {}
+        cli_args = Namespace(solvability_check=False, at_n=-1, after_loop=False)
+        out["goals"] = {}
+        for g in goals:
+            try:
+                m, ex = get_moment(symengine.sympify(g), solvers, rb, cli_args, program)
+                out["goals"][g] = {"closed_form": str(m), "is_exact": bool(ex),
+                                   "values": [eval_closed_form(m, {}, n) for n in range(5)]}
+            except JobTimeout:
+                raise
+            except Exception as ex:
+                out["goals"][g] = {"exc": type(ex).__name__}
+    except JobTimeout:
+        raise
+    except Exception as ex:
+        out["exc"] = type(ex).__name__
+        out["msg"] = str(ex)[:200]
+    return out
+
+
+def job_session(job):
+    """a history of actions in ONE process; reports the hidden state after every action"""
+    import settings
+    import utils.identifiers as ident
+    from program.assignment import FunctionalAssignment
+    apply_settings({})
+    names = []
+    _install_name_recorder(names)
+    optmap = {"tc": "transform_categoricals", "c2a": "cond2arithm", "exact": "exact_func_moments"}
+    out = []
+    for act in job["actions"]:
+        rec = {"a": act["a"]}
+        before = len(names)
+        if act["a"] == "toggle":
+            attr = optmap[act["o"]]
+            setattr(settings, attr, not getattr(settings, attr))
+        else:
+            prog = job["programs"][act["p"]]
+            goals = act.get("goals", prog["goals"])
+            rec["result"] = _analyze_simple(prog["text"], goals)
+        rec["counter"] = ident._count_unique_var
+        rec["fresh"] = names[before:]
+        rec["flag"] = bool(FunctionalAssignment.exact_func_moments)
+        rec["settings"] = {k: bool(getattr(settings, v)) for k, v in optmap.items()}
+        out.append(rec)
+    return {"id": job["id"], "actions": out}
+
+
+JOBS = {"session": job_session, "accepts": job_accepts, "analyze": job_analyze, "linrec": job_linrec, "explattice": job_explattice, "simulate": job_simulate}
 
 
 def handle(job):
